@@ -149,7 +149,7 @@ def spec_rotation(isub, iband, dm_final, dm0, p_final, nints, nbands, nbins, dm_
         chan_width = Fraction(FOFF) * NCH / nbands
         f = Fraction(FCH1) + iband * chan_width
         tsamp = Fraction(P0) / nbins
-        K = Fraction(params.DM_CONSTANT_LK)
+        K = Fraction(4.148808e3)      # the documented dispersion constant (property text), not whatever the library currently uses
         delay = z3.RealVal(K * (1 / (f * f) - 1 / (Fraction(FCH1) ** 2)) / tsamp) * (dm_final - dm0)
         rot = rot - half_even(delay)
         # the library evaluates constants such as fref**-2 in floating point: keep a margin around rounding boundaries
